@@ -204,75 +204,135 @@ def _run(case, tmp):
             viol('populate_world_from_dict_raised', exception=repr(exc)[:600])
         expected_types = [e['type'] for e in expected_procs]
 
-    # processors
-    procs = world.processors
-    if [type(p) for p in procs] != expected_types:
-        viol('processors_are_exactly_the_listed_ones_after_the_defaults', got=[type(p).__name__ for p in procs],
-             expected=[t.__name__ for t in expected_types])
-    listed = procs[len(procs) - len(expected_procs):] if expected_procs else []
-    for p, e in zip(listed, expected_procs):
-        check_ctor(p, e, 'processor')
-    # entities
-    nonempty = [e for e in expected_entities if e['components']]
-    ents = world.entities if not as_file else None
-    tag_to_entity = {}
-    for T in (fx.PlainA, fx.PlainB, fx.HandlerA, fx.LoadOnly):
-        for ent, comp in world.get(T):
-            tag_to_entity[comp.kwargs.get('tag')] = ent
-    found = set()
-    for e in nonempty:
-        if e['id'] is not None:
-            ent = e['id']
-        else:
-            ent = tag_to_entity.get(e['components'][0]['tag'], viol)
-            if ent is viol:
-                viol('listed_entity_not_found', tag=e['components'][0]['tag'])
-        comps = world.get_components(ent)
-        if sorted(type(c).__name__ for c in comps) != sorted(x['type'].__name__ for x in e['components']):
-            viol('entity_has_exactly_the_listed_components', entity=repr(ent),
-                 got=[type(c).__name__ for c in comps], expected=[x['type'].__name__ for x in e['components']])
-        for x in e['components']:
-            c = world.get_component(ent, x['type'])
-            if type(c) is not x['type']:
-                viol('entity_has_exactly_the_listed_components', entity=repr(ent), missing=x['type'].__name__)
-            check_ctor(c, x, 'component')
-            x['entity'] = ent
-            x['obj'] = c
-        if ent in found:
-            viol('two_listed_entities_share_one_identifier', entity=repr(ent))
-        found.add(ent)
-    total = len({ent for T in (fx.PlainA, fx.PlainB, fx.HandlerA, fx.LoadOnly) for ent, _c in world.get(T)})
-    if total != len(nonempty):
-        viol('number_of_entities_differs_from_description', got=total, expected=len(nonempty))
-    # callbacks
-    if as_file:
-        world.dispatch_enabled = True
-        if len(world.entities) != len(nonempty):
-            viol('number_of_entities_differs_from_description', got=len(world.entities), expected=len(nonempty))
-    per = collections.defaultdict(list)
-    for kind, comp, args in fx.LOG:
-        per[id(comp)].append((kind, args))
-    for e in nonempty:
-        for x in e['components']:
-            ev = getattr(x['type'], '__events__', None)
-            if ev is None:
+    def verify(world, handle, expected_procs, expected_entities, expected_types):
+        # processors
+        procs = world.processors
+        if [type(p) for p in procs] != expected_types:
+            viol('processors_are_exactly_the_listed_ones_after_the_defaults', got=[type(p).__name__ for p in procs],
+                 expected=[t.__name__ for t in expected_types])
+        listed = procs[len(procs) - len(expected_procs):] if expected_procs else []
+        for p, e in zip(listed, expected_procs):
+            check_ctor(p, e, 'processor')
+        # entities
+        nonempty = [e for e in expected_entities if e['components']]
+        ents = world.entities if not as_file else None
+        tag_to_entity = {}
+        for T in (fx.PlainA, fx.PlainB, fx.HandlerA, fx.LoadOnly):
+            for ent, comp in world.get(T):
+                tag_to_entity[comp.kwargs.get('tag')] = ent
+        found = set()
+        for e in nonempty:
+            if e['id'] is not None:
+                ent = e['id']
+            else:
+                ent = tag_to_entity.get(e['components'][0]['tag'], viol)
+                if ent is viol:
+                    viol('listed_entity_not_found', tag=e['components'][0]['tag'])
+            comps = world.get_components(ent)
+            if sorted(type(c).__name__ for c in comps) != sorted(x['type'].__name__ for x in e['components']):
+                viol('entity_has_exactly_the_listed_components', entity=repr(ent),
+                     got=[type(c).__name__ for c in comps], expected=[x['type'].__name__ for x in e['components']])
+            for x in e['components']:
+                c = world.get_component(ent, x['type'])
+                if type(c) is not x['type']:
+                    viol('entity_has_exactly_the_listed_components', entity=repr(ent), missing=x['type'].__name__)
+                check_ctor(c, x, 'component')
+                x['entity'] = ent
+                x['obj'] = c
+            if ent in found:
+                viol('two_listed_entities_share_one_identifier', entity=repr(ent))
+            found.add(ent)
+        total = len({ent for T in (fx.PlainA, fx.PlainB, fx.HandlerA, fx.LoadOnly) for ent, _c in world.get(T)})
+        if total != len(nonempty):
+            viol('number_of_entities_differs_from_description', got=total, expected=len(nonempty))
+        # callbacks
+        if as_file:
+            world.dispatch_enabled = True
+            if len(world.entities) != len(nonempty):
+                viol('number_of_entities_differs_from_description', got=len(world.entities), expected=len(nonempty))
+        per = collections.defaultdict(list)
+        for kind, comp, args in fx.LOG:
+            per[id(comp)].append((kind, args))
+        for e in nonempty:
+            for x in e['components']:
+                ev = getattr(x['type'], '__events__', None)
+                if ev is None:
+                    continue
+                want = []
+                if 'on_add' in ev:
+                    want.append('on_add')
+                if as_file and 'on_world_load' in ev:
+                    want.append('on_world_load')
+                got = per.get(id(x['obj']), [])
+                if [k for k, _a in got] != want:
+                    viol('handler_component_gets_on_add_once_then_on_world_load_once', component=repr(x['obj']),
+                         got=[k for k, _a in got], expected=want)
+                for k, a in got:
+                    if k == 'on_add' and not (len(a) == 2 and a[0] == x['entity'] and a[1] is world):
+                        viol('on_add_arguments', got=repr(a), entity=repr(x['entity']))
+                    if k == 'on_world_load' and not (len(a) == 2 and a[0] is handle and a[1] is world):
+                        viol('on_world_load_arguments', got=repr(a))
+                facts['handler_component'] += 1
+
+    def build_expected():
+        """(re)compute what the description means right now (resource references follow the current tree)"""
+        eprocs, eents = [], []
+        seen_p = set()
+        for it in case['processors']:
+            tname = fx.PROCESSOR_TYPES[it['type'] % len(fx.PROCESSOR_TYPES)]
+            if tname in seen_p:
                 continue
-            want = []
-            if 'on_add' in ev:
-                want.append('on_add')
-            if as_file and 'on_world_load' in ev:
-                want.append('on_world_load')
-            got = per.get(id(x['obj']), [])
-            if [k for k, _a in got] != want:
-                viol('handler_component_gets_on_add_once_then_on_world_load_once', component=repr(x['obj']),
-                     got=[k for k, _a in got], expected=want)
-            for k, a in got:
-                if k == 'on_add' and not (len(a) == 2 and a[0] == x['entity'] and a[1] is world):
-                    viol('on_add_arguments', got=repr(a), entity=repr(x['entity']))
-                if k == 'on_world_load' and not (len(a) == 2 and a[0] is handle and a[1] is world):
-                    viol('on_world_load_arguments', got=repr(a))
-            facts['handler_component'] += 1
+            seen_p.add(tname)
+            _d, e = build_item(it, 'verif_fixtures.' + tname, getattr(fx, tname), render, as_file, 'p%d' % len(eprocs))
+            eprocs.append(e)
+        used = set()
+        for ei, ent in enumerate(case['entities']):
+            eid = IDS[ent['id']]
+            if eid is not None and eid in used:
+                eid = None
+            if eid is not None:
+                used.add(eid)
+            exp, seen_c = [], set()
+            for ci, it in enumerate(ent['components']):
+                tname = fx.COMPONENT_TYPES[it['type'] % len(fx.COMPONENT_TYPES)]
+                if tname in seen_c:
+                    continue
+                seen_c.add(tname)
+                _d, e = build_item(it, 'verif_fixtures.' + tname, getattr(fx, tname), render, as_file, 'e%dc%d' % (ei, ci))
+                exp.append(e)
+            eents.append({'id': eid, 'components': exp})
+        return eprocs, eents
+
+    verify(world, handle, expected_procs, expected_entities, expected_types)
+    if as_file:
+        # second load of the same handle: meanwhile components have mutated the containers they were built with and
+        # a referenced resource was replaced - the reloaded world is built from the DESCRIPTION again
+        for e in expected_entities:
+            for x in e['components']:
+                c = x.get('obj')
+                for v in list(getattr(c, 'args', ())) + list(getattr(c, 'kwargs', {}).values()):
+                    if isinstance(v, list) and v is not fx.CONST_LIST:
+                        v.append('mutated by the first world')
+                    elif isinstance(v, dict) and v is not fx.Holder.attr:
+                        v['mutated'] = True
+        newh = ResHandle('r1-replaced')
+        root['r1'] = newh
+        res['r1'] = newh
+        handle.clear()
+        del fx.LOG[:]
+        try:
+            world2 = handle()
+        except Exception as exc:
+            viol('loading_the_world_a_second_time_raised', exception=repr(exc)[:600])
+        if world2 is world:
+            viol('cleared_handle_returned_the_old_world')
+        if world2.dispatch_enabled or fx.LOG:
+            viol('world_returned_with_dispatching_enabled_or_callbacks_ran', second_load=True)
+        ep2, ee2 = build_expected()
+        facts['second_load'] += 1
+        verify(world2, handle, ep2, ee2, expected_types)
     kinds = sum(1 for k in ('ref_object', 'ref_res', 'ref_handle') if facts[k])
+    nonempty = [e for e in expected_entities if e['components']]
     nontrivial = (len(nonempty) >= 2 and kinds >= 2) or facts['nested_world_handle_with_resource_refs']
     classes = sorted(k for k, v in facts.items() if v) + ['driver_' + case['driver']]
     return {'nontrivial': bool(nontrivial), 'classes': classes, 'steps': len(case['entities'])}
